@@ -65,6 +65,21 @@ def _case(draw):
         g["height"] = draw(st.sampled_from([0, 0, 100, 1000]))
         g["width"] = abs(g.get("width", 0))
     which = draw(st.sampled_from(FILTERS))
+    if which == "propagate" and draw(st.booleans()):
+        # accented-letter structure: a base component plus mark components whose glyph carries both the attaching anchor (_top) and the stacking anchor (top);
+        # the mark components are scaled / mirrored / rotated, and the composite is nested once more
+        tri = [[0, 0, "line"], [100, 0, "line"], [50, 80, "line"]]
+        spec["glyphs"].append({"name": "pbase", "width": 500, "height": 0, "unicodes": [], "contours": [tri], "anchors": [{"name": "top", "x": 250, "y": 700}, {"name": "bottom", "x": 250, "y": 0}]})
+        spec["glyphs"].append({"name": "pmark", "width": 0, "height": 0, "unicodes": [], "contours": [tri], "anchors": [{"name": "_top", "x": 50, "y": 0}, {"name": "top", "x": 55, "y": 120}]})
+        spec["glyphs"].append({"name": "pbelow", "width": 0, "height": 0, "unicodes": [], "contours": [tri], "anchors": [{"name": "_bottom", "x": 50, "y": 80}, {"name": "bottom", "x": 45, "y": -30}]})
+        for k in range(draw(st.integers(1, 3))):
+            comps = [{"base": "pbase", "t": draw(st.sampled_from([[1, 0, 0, 1, 0, 0], [1, 0, 0, 1, 10, 0], [0.8, 0, 0, 0.8, 0, 0]]))}, {"base": "pmark", "t": draw(gen.transform())}]
+            if draw(st.booleans()):
+                comps.append({"base": "pbelow", "t": draw(gen.transform())})
+            own = draw(st.sampled_from([[], [], [{"name": "bottom", "x": 1, "y": 2}], [{"name": "top_1", "x": 3, "y": 4}]]))
+            spec["glyphs"].append({"name": "pacc%d" % k, "width": 500, "height": 0, "unicodes": [], "components": comps, "anchors": own})
+        spec["glyphs"].append({"name": "pacc.sups", "width": 300, "height": 0, "unicodes": [], "components": [{"base": "pacc0", "t": [0.6, 0, 0, 0.6, 0, 300]}], "anchors": []})
+        names = [g["name"] for g in spec["glyphs"]]
     opts = dict(draw(tf_opts)) if which == "transform" else {}
     if which != "propagate" and draw(st.booleans()):
         opts["include"] = draw(st.lists(st.sampled_from(names), unique=True, min_size=1))
@@ -287,6 +302,8 @@ def run_case(case, ctx):
         ctx.label("mirrored-component")
     nontrans = any(tuple(c["t"][:4]) != (1, 0, 0, 1) for g in gi0.values() for c in g["components"])
     ctx.label("filter=" + which)
+    if which == "propagate" and "pmark" in gi0 and any(tuple(c["t"][:4]) != (1, 0, 0, 1) for n_, g_ in gi0.items() if n_.startswith("pacc") for c in g_["components"] if c["base"] in ("pmark", "pbelow")):
+        ctx.label("propagate-through-transformed-mark-component")
     if inc is not None:
         ctx.label("include-list")
     ctx.nontrivial((maxd >= 2 and nontrans) or (which == "transform" and inc is not None and any(set(inc) & {c["base"] for c in gi0[n]["components"]} for n in inc if n in gi0)))
